@@ -24,3 +24,7 @@ mod transform;
 mod vp8_arithmetic_decoder;
 
 pub mod vp8;
+
+/// Verification hooks (thin wrappers exposing internal functions); compiled only with `--cfg image_webp_verif`.
+#[cfg(image_webp_verif)]
+pub mod verif;
